@@ -3617,6 +3617,114 @@ fn holder_phase(run: &Run, scratch: &Scratch, seed: u64, jobs: &[u64]) -> u64 {
 	waited
 }
 
+// ===================================================================== batches just inside the headroom (single writer)
+
+/// --worker-ladder seed dir out
+/// The store enlarges its map when more than 90 % is used and checks that before every batch, so a single writer whose
+/// every batch stays below the 10 % headroom never runs out of space, whatever the sizes of the batches before. Fresh
+/// 1 MiB stores, one value per batch (overflow pages: the size on disk is the size of the value), ladders of n small
+/// batches followed by large ones (up to 80 KB, 7.8 % of the initial map) until the store has grown past 1.6 MiB.
+fn worker_ladder(args: &[String]) -> i32 {
+	install_logger();
+	no_core_dumps();
+	init_thread();
+	let seed: u64 = args[0].parse().unwrap_or(1);
+	let base = args[1].clone();
+	let out = args[2].clone();
+	let mut pr = Prng::new(seed ^ 0x1ADD);
+	let mut sessions = 0u64;
+	let mut batches = 0u64;
+	let mut failures: Vec<Value> = vec![];
+	let mut profiles: Vec<(u64, u64, u64)> = vec![];
+	for small in [36u64, 40, 44, 48] {
+		for n_small in [7u64, 8, 9, 10, 11] {
+			for large in [64u64, 72, 80] {
+				profiles.push((small, n_small, large));
+			}
+		}
+	}
+	pr.shuffle(&mut profiles);
+	for (pi, (small, n_small, large)) in profiles.iter().enumerate() {
+		let dir = format!("{}/l{}", base, pi);
+		let _ = std::fs::create_dir_all(&dir);
+		let store = match open_store(&dir, None) {
+			Ok(s) => s,
+			Err(_) => continue,
+		};
+		sessions += 1;
+		let mut written = 0u64;
+		let mut k = 0u64;
+		let mut err: Option<String> = None;
+		while written < 1_700_000 && err.is_none() {
+			let kb = if k < *n_small { *small } else { *large };
+			let len = (kb * 1024 - pr.below(512)) as usize;
+			let val = Prng::new(seed ^ (pi as u64) << 20 ^ k).bytes(len);
+			let r = (|| -> Result<(), StoreError> {
+				let mut b = store.batch()?;
+				b.put(SPACE_KEYS[0], &storm_key(k), &val)?;
+				b.commit()
+			})();
+			match r {
+				Ok(()) => {
+					written += len as u64;
+					batches += 1;
+				}
+				Err(e) => err = Some(error_class(&e)),
+			}
+			k += 1;
+		}
+		if let Some(e) = err {
+			failures.push(json!({"profile": format!("{} x {} KB then {} KB", n_small, small, large), "failed_batch": k, "bytes_committed_before": written, "error": e}));
+		} else {
+			// everything committed is there
+			for q in 0..k {
+				let want = Prng::new(seed ^ (pi as u64) << 20 ^ q).bytes(0);
+				let _ = want;
+				match store.exists(SPACE_KEYS[0], &storm_key(q)) {
+					Ok(true) => {}
+					other => {
+						failures.push(json!({"profile": format!("{} x {} KB then {} KB", n_small, small, large), "missing_key": q, "exists": format!("{:?}", other.map_err(|e| error_class(&e)))}));
+						break;
+					}
+				}
+			}
+		}
+		drop(store);
+		let _ = std::fs::remove_dir_all(&dir);
+	}
+	let (resizes, live) = verif_hooks::resize_stats_take();
+	let _ = std::fs::write(&out, json!({"sessions": sessions, "batches": batches, "enlargements": resizes, "enlargements_with_live_transactions": live.len(), "failures": failures}).to_string());
+	0
+}
+
+fn ladder_phase(run: &Run, scratch: &Scratch, seed: u64) {
+	let dir = scratch.sub("ladder");
+	let out = scratch.sub("ladder.json");
+	let _ = std::fs::create_dir_all(&dir);
+	let r = run_worker(&["--worker-ladder".to_string(), seed.to_string(), dir.clone(), out.clone()], &format!("{}.log", dir), Duration::from_secs(300));
+	let v = read_json(&out);
+	let _ = std::fs::remove_dir_all(&dir);
+	let v = match (r.code, r.timed_out, v) {
+		(Some(0), false, Some(v)) => v,
+		(c, to, _) => {
+			run.inconclusive(&format!("headroom ladder worker: exit {:?} timed_out {} {}", c, to, r.tail));
+			return;
+		}
+	};
+	run.count("ladder.sessions", v["sessions"].as_u64().unwrap_or(0));
+	run.count("ladder.batches_each_below_the_headroom", v["batches"].as_u64().unwrap_or(0));
+	run.count("ladder.enlargements", v["enlargements"].as_u64().unwrap_or(0));
+	run.eval_bulk(v["batches"].as_u64().unwrap_or(0), vec![]);
+	for f in v["failures"].as_array().cloned().unwrap_or_default().iter().take(3) {
+		let cls = if f.get("error").is_some() { format!("writer={}", f["error"].as_str().unwrap_or("?")) } else { "committed_key_missing".to_string() };
+		run.violation(
+			&format!("ladder;oracle=no_operation_fails_for_lack_of_space;{}", cls),
+			&format!("a single writer whose every batch stays below the 10 % headroom of the map: {}", f),
+			json!({"scenario": "headroom ladder", "cmd": format!("c18 --worker-ladder {} <dir> <out>", seed), "detail": f}),
+		);
+	}
+}
+
 fn no_core_dumps() {
 	unsafe {
 		let lim = libc::rlimit {
@@ -4464,6 +4572,7 @@ fn main() {
 		("--worker-probe", worker_probe),
 		("--worker-storm", worker_storm),
 		("--worker-holder", worker_holder),
+		("--worker-ladder", worker_ladder),
 	] {
 		if let Some(i) = raw.iter().position(|a| a == flag) {
 			std::process::exit(f(&raw[i + 1..]));
@@ -4678,6 +4787,9 @@ fn main_full(run: &Run, scratch: &Scratch, seed: u64) {
 		}
 	});
 
+	// ---- (6) single-writer ladders of batches just inside the headroom
+	ladder_phase(run, scratch, seed);
+
 	// ---- (4) reader storm across enlargements (after the other phases, so that its readers have the cores)
 	let (storm_runs, storm_enl) = storm_phase(run, scratch, seed, tier.pick(24, 240), tier.pick(3, 4), 8);
 
@@ -4884,6 +4996,7 @@ fn main_full(run: &Run, scratch: &Scratch, seed: u64) {
 	);
 	run.require("multi-thread workers completed", done, n_mt as u64);
 	run.require("reader-storm runs completed", storm_runs, tier.pick(10, 100));
+	run.require("single-writer batches just inside the headroom", run.counter("ladder.batches_each_below_the_headroom"), 800);
 	run.require("runs in which the writer waited 5 s or more for a reader that kept its iterator", holder_waited.load(Ordering::SeqCst), 1);
 	run.require("map enlargements while 6 / 2 / 1 readers kept read transactions coming", storm_enl, tier.pick(40, 400));
 	run.require("map resizes completed, minimum over workers", m("mt_resizes_completed"), tier.pick(2, 4));
